@@ -2,7 +2,7 @@
 Own bodies (maps / owning tensors flush against guard pages at every misalignment, bounds clause) under the ISA axis and
 under AddressSanitizer+UBSan builds, plus a sample of every other property's instances re-run under the sanitised builds."""
 import importlib, random
-from vf.core import Unit, Case, Config, std_configs, chunks
+from vf.core import Unit, Case, Config, FuzzJob, std_configs, chunks
 
 TYPES = {"f": "float", "d": "double", "i": "int", "l": "int64_t"}
 RULE = ("own instances = (type, shape, op-group) over TensorMap operands and placement-constructed owning tensors placed flush against "
@@ -18,6 +18,7 @@ ASSUMPTIONS = ["an over-read that stays inside an owning tensor's own alignment 
                "MSan is not usable here (no instrumented libstdc++)"]
 EXHAUSTIVE_SPACE = None
 SAN = ("-fsanitize=address,undefined", "-fno-sanitize-recover=undefined")
+MEMORY_EVENTS = r"signal \d+|sanitizer|Sanitizer|runtime error|allocat|outside|guard|canar|modified|process died|overwritten|exception"
 OTHERS = ["c01", "c02", "c03", "c04", "c05", "c08", "c09", "c14", "c15", "c16", "c17", "c18", "c19", "c20"]
 
 
@@ -79,8 +80,11 @@ def borrowed_units(tier, seed, rng, cfgs):
             got += len(take)
             for cfg in cfgs:
                 c2 = Config(cfg.isa, cfg.std, cfg.opt, cfg.asserts, cfg.compiler, cfg.macros, tuple(cfg.extra) + tuple(e for e in u.config.extra if e not in cfg.extra))
-                units.append(Unit("C07", c2, take, u.headers, mode=u.mode, max_success=min(u.max_success, 12), prelude=u.prelude,
-                                  enum_budget=min(u.enum_budget, 20000), size_floor=u.size_floor, timeout=u.timeout))
+                nu = Unit("C07", c2, take, u.headers, mode=u.mode, max_success=min(u.max_success, 12), prelude=u.prelude,
+                          enum_budget=min(u.enum_budget, 20000), size_floor=u.size_floor, timeout=u.timeout)
+                # a borrowed body's semantic verdict belongs to its own property; here only memory/allocation/crash events count
+                nu.accept_fail = MEMORY_EVENTS
+                units.append(nu)
     return units
 
 
@@ -96,4 +100,34 @@ def plan(tier, seed, rng):
         for ch in chunks(cases, 70):
             units.append(Unit("C07", cfg, ch, ["props/c07.h"], max_success=n // 2))
     units += borrowed_units(tier, seed, rng, sc[:1] if tier == "quick" else sc)
+    units += fuzz_jobs(tier, seed, rng, cases)
     return units
+
+
+def fuzz_jobs(tier, seed, rng, own):
+    """coverage-guided campaigns (libFuzzer + ASan + UBSan, clang) over the bodies whose control flow depends on run-time
+    parameters: the map/guard-page bodies of this property and the view / index / map-history bodies of C04, C05, C19, C20"""
+    jobs = []
+    runs = 40000 if tier == "quick" else 600000
+    procs = 4 if tier == "quick" else 8
+    isas = ["avx2", "avx512"] if tier == "quick" else ["sse2", "avx2", "avx512"]
+    r = random.Random("%s/fuzz" % seed)
+    mine = [c for c in own if not c.id.startswith("bounds/")]
+    r.shuffle(mine)
+    jobs.append(FuzzJob("C07", Config(isas[0], "c++17", "-O1", True, "clang++", (), SAN), mine[:40 if tier == "quick" else 120], ["props/c07.h"],
+                        runs=runs, procs=procs))
+    for name in ("c04", "c05", "c19", "c20"):
+        try:
+            mod = importlib.import_module("gen." + name)
+            theirs = mod.plan("quick", seed, random.Random("%s/fuzzborrow/%s" % (seed, name)))
+        except Exception:
+            continue
+        pool = [u for u in theirs if u.mode == "rc" and not u.config.macros and u.config.name == theirs[0].config.name]
+        r.shuffle(pool)
+        if not pool: continue
+        u = pool[0]
+        j = FuzzJob("C07", Config(isas[-1] if name in ("c05", "c20") else isas[0], "c++17", "-O1", True, "clang++", (), SAN),
+                    u.cases[:12 if tier == "quick" else 40], u.headers, prelude=u.prelude, runs=runs // 2, procs=procs)
+        j.accept_fail = MEMORY_EVENTS
+        jobs.append(j)
+    return jobs
